@@ -498,7 +498,14 @@ def _corpus(rng):
         return X, y, rng.choice([pos, neg]) * 3
     a = rng.choice([1, 2, 3, 5, 8, 12])
     alphabet = ["t%d" % i for i in range(a)]
-    if rng.random() < 0.4:
+    if rng.random() < 0.15:
+        # tokens are arbitrary strings: empty, control / separator characters that splitlines()
+        # and friends treat as line ends, quotes, format and escape characters, non-ASCII
+        exotic = ["", "\x0b", "a\x0cb", "\x1c", "x\x85y", "\u2028", "\u2029z", "\n", "a\tb", "\r",
+                  "ß", "É", "日本", "#", "'", '"', "\\", "%s", "{0}", "NaN", "0", "None", "\x00",
+                  "\x1e\x1d", "-1"]
+        alphabet = rng.sample(exotic, min(len(exotic), a + 2)) + alphabet[: a // 2]
+    elif rng.random() < 0.4:
         alphabet = [str(100 + i) for i in range(a // 2 + 1)] + ["rule%s" % chr(65 + i) for i in range(a // 2 + 1)]
     n = rng.randint(2, 14)
     X, y = [], []
